@@ -1292,6 +1292,16 @@ impl OpenOptions {
 
             let file_exists = ctx.fs.file_exists(&resolved_path);
 
+            // A directory cannot be created over or opened for writing
+            if ctx.fs.dir_exists(&resolved_path) {
+                if self.create_new {
+                    return Err(Error::new(ErrorKind::AlreadyExists, "file already exists"));
+                }
+                if self.write || self.append || self.create || self.truncate {
+                    return Err(Error::new(ErrorKind::IsADirectory, "is a directory"));
+                }
+            }
+
             // Handle create_new: fail if file exists
             if self.create_new && file_exists {
                 return Err(Error::new(ErrorKind::AlreadyExists, "file already exists"));
